@@ -23,7 +23,7 @@ func init() {
 			"delivery of the prefix in {one call, 1, 7, 24, 25 bytes per call}; behaviour after the prefix in {would-block forever, error alone, error together with the last data, unrelated bytes then EOF}; source in {plain io.Reader, bufio 16 / 4096 / 65536}; Read policy in {1, 4096, 1 MiB}; " +
 			"oracle: at the moment the Reader first asks for bytes beyond the prefix, or returns an error, it has already handed out all data encoded before that point (and io.EOF when the prefix is the whole stream, except gzip in multistream mode); 'blocks forever' is modelled by aborting the execution at the first over-read, no clock involved; non-trivial = the prefix encodes at least one byte",
 		Assumptions: []string{"a source that would block is modelled by a sentinel panic at the first Read beyond the released prefix"},
-		Quick:       TierSpec{MaxDev: -1, Shards: 4, ShardDepth: 3, BudgetS: 150},
+		Quick:       TierSpec{MaxDev: -1, Shards: 4, ShardDepth: 3, BudgetS: 600},
 		Thorough:    TierSpec{MaxDev: -1, Shards: 8, ShardDepth: 3, BudgetS: 1200},
 		Harness:     c11Harness,
 	})
